@@ -9,6 +9,8 @@ from .common import entry_summary, short
 from ..pwtools import pw_equal
 from ..regions import Box, lt
 
+CASE_SPLIT = True     # orderings between different grid sizes are analysed case by case (regions.run_under_size_cases)
+
 
 from .common import pin_indices, refine, match_spec
 
